@@ -387,3 +387,47 @@ def c07(tier, seed):
     ck.assumptions = COMMON_ASSUMPTIONS + ['the path API only hands canonical paths to a backend (checked by C06); calling the FileSystem trait of an altroot directly with a non-canonical string is outside']
     ck.rule = 'a state = (P, well-formed tree in the altroot view, entries beside and above P); transitions = call paths; kernel: (|P|,|q|) classes with symbolic bytes'
     return ck.finish(prog)
+
+
+@prop('C19')
+def c19(tier, seed):
+    from . import times
+    ck = Check('C19', tier, seed)
+    prog = load_program()
+    ck.selftest = quick_selftest(prog, seed, 12 if tier == 'quick' else 150, kinds=['mem', 'alt', 'ovl'])
+    cases = [{'cfg': c, 'kind': k, 'steps': 2 if tier == 'quick' else 3} for c in ['mem', 'alt', 'ovl_upper', 'ovl_lower'] for k in ['file', 'dir']]
+    ck.add(run_cases(prog, times.run_times_case, cases), 'setter sequences with symbolic SystemTime values on files and directories')
+    ck.bounds = {'configs': ['mem', 'alt', 'ovl_upper', 'ovl_lower'], 'setter_sequence_length': 2 if tier == 'quick' else 3,
+                 'time_values': 'any 64-bit instant (solver variable); SystemTime::now = fresh symbolic instant',
+                 'not_encoded': 'PhysicalFS/filetime (utimensat) and its NotSupported creation-time path'}
+    ck.assumptions = COMMON_ASSUMPTIONS[:4] + ['SystemTime is an opaque 64-bit instant compared by equality/order']
+    ck.rule = 'a state = (configuration, entry kind); transitions = all sequences of setters of the bounded length with symbolic instants'
+    return ck.finish(prog)
+
+
+@prop('C20')
+def c20(tier, seed):
+    from . import faults, overlay
+    ck = Check('C20', tier, seed)
+    prog = load_program()
+    ck.selftest = quick_selftest(prog, seed, 12 if tier == 'quick' else 150)
+    rng = random.Random(seed)
+    uname = 'UO3'
+    u = UNIVERSES[uname]()
+    cases = []
+    ops = [(op, v) for op in faults.OPS1 for v in u.vars]
+    shs = shapes(u)
+    for config in ('plain', 'alt'):
+        sel = shs if tier != 'quick' else shs[::2]
+        for sh in sel:
+            cases.append({'universe': uname, 'config': config, 'state': sh, 'ops': ops})
+    cfgs = overlay.layer_configs(u, 2)
+    rng.shuffle(cfgs)
+    for cfg in cfgs[:(25 if tier == 'quick' else len(cfgs))]:
+        cases.append({'universe': uname, 'config': 'ovl', 'state': cfg, 'ops': ops if tier != 'quick' else rng.sample(ops, 30)})
+    ck.add(run_cases(prog, faults.run_fault_case, cases), 'one injected failure at every position k of every underlying call sequence')
+    ck.bounds = {'universe': uname, 'faults_per_operation': 1, 'configs': ['VfsPath composites over a failing MemoryFS', 'AltrootFS over it', 'OverlayFS over two of them (fault in either layer)'],
+                 'operations': faults.OPS1, 'not_yet': 'copy_file/move_file/copy_dir/move_dir under faults'}
+    ck.assumptions = COMMON_ASSUMPTIONS[:4] + ['a failing underlying call returns io::Error(Other) without touching the filesystem']
+    ck.rule = 'a state = (configuration, tree / layer assignment); a transition = one (operation, target, failing call index k) run; k ranges over all calls of the fault-free run'
+    return ck.finish(prog)
